@@ -33,6 +33,7 @@ type concWorld struct {
 	suspendAfter int
 	closeEarly   bool
 	preempt      int
+	stall        int // 1/stall of scheduling steps freeze the chosen task (0 = never)
 	frames       int
 
 	vx           *vaxis.Vaxis
@@ -99,7 +100,7 @@ func (w *concWorld) Describe() any {
 		ps = append(ps, fmt.Sprintf("poster %d: %s", i, strings.Join(ops, ", ")))
 	}
 	return map[string]any{"queue": w.qsize, "linearizability_mode": w.lin, "posters": ps, "queriers": w.queriers, "spinner": w.spin,
-		"user_input": w.userIn, "suspend_after_events": w.suspendAfter, "preempt_1_in": w.preempt, "caps": capsString(w.caps)}
+		"user_input": w.userIn, "suspend_after_events": w.suspendAfter, "preempt_1_in": w.preempt, "stall_1_in": w.stall, "caps": capsString(w.caps)}
 }
 
 func (w *concWorld) Build(t *simrt.Tape, spec RunSpec) {
@@ -158,6 +159,7 @@ func (w *concWorld) Build(t *simrt.Tape, spec RunSpec) {
 	w.sizeChanges = t.Draw(2) == 0 && !w.caps.InBandResize && !w.lin
 	w.preempt = []int{0, 0, 200, 50, 20}[t.Draw(5)]
 	w.frames = 1 + t.Draw(4)
+	w.stall = []int{0, 0, 300, 60}[t.Draw(4)]
 }
 
 func (w *concWorld) Start(s *simrt.Sched, res *RunResult) {
@@ -166,6 +168,11 @@ func (w *concWorld) Start(s *simrt.Sched, res *RunResult) {
 	s.MaxTime = 30 * time.Minute
 	s.RaceOn = true
 	s.Preempt = w.preempt
+	// stall fault: the application's own threads (main, posters, queriers,
+	// resizers) may be descheduled for up to 70 simulated ms at any of their
+	// scheduling points; the terminal and the wire keep their planned latency
+	s.StallOneIn, s.StallMax = w.stall, 6
+	s.StallOK = func(t *simrt.Task) bool { return t.Name != "terminal" && t.Name != "wire" }
 	w.got = map[int][]int{}
 	w.sent = map[int][]postRec{}
 	w.env = newSessionEnv(s, res, 6, 20, w.caps)
@@ -578,6 +585,7 @@ func (w *concWorld) Finish(s *simrt.Sched, res *RunResult) {
 	res.Nontrivial = len(w.posters) > 1 || len(w.queriers) > 0 || w.userIn
 	res.EndState = fmt.Sprintf("%s polls=%d races=%d", s.End, w.pollCalls, len(s.Races))
 	res.Probes = map[string]int{"accesses-checked": s.Accesses}
+	res.FaultN("task-stalled", s.Stalls)
 	taskPanics(s, res, "panic")
 	// (a) data races
 	for _, r := range s.Races {
